@@ -11,6 +11,7 @@ Record case := mkCase {
   c_perm : bool;               (* oracle: CheckFilePermissionsForExecution(config file) succeeds *)
   i_decode : bool;             (* impl: the real loader produced exactly c_cfg *)
   i_verdict : Z;               (* impl: error class of configuration.Validate (0 = accepted) *)
+  i_cli : Z;                   (* impl: error class reported by the real `fan2go config validate -c file` process; -1 = not sampled *)
   i_inst : Z;                  (* accepted only: 0 = constructors succeeded, 1 = one failed *)
   i_curves : list Z;           (* per curve entry: 0 = Evaluate returned for every sensor environment, 1 = panic, 2 = endless recursion *)
   i_ctrl : Z;                  (* 0 = fan controllers constructed, 1 = crash *)
@@ -40,6 +41,7 @@ Definition run_eqb (r : run_obs) (c : case) : bool :=
 Definition mismatch (c : case) : bool :=
   negb (i_decode c)
   || negb (verr_code (validate (c_cfg c) (c_perm c)) =? i_verdict c)
+  || negb ((i_cli c =? -1) || (i_cli c =? verr_code (validate (c_cfg c) (c_perm c))))
   || ((i_verdict c =? 0) && negb (run_eqb (model_run (c_cfg c)) c)).
 
 (* ---- the property, judged on the implementation's own observations ---- *)
